@@ -881,7 +881,7 @@ impl Prop for C13 {
         matches!(k.op, GOp::Swap(_) | GOp::SwapRows(..) | GOp::SwapCols(..) | GOp::RowPairMut(..) | GOp::Fill(_)) && sanitize(k, 12, false)
     }
     fn random_cases(tier: Tier) -> u64 {
-        if tier == Tier::Quick { 40_000 } else { 1_500_000 }
+        if tier == Tier::Quick { 400_000 } else { 6_000_000 }
     }
     fn execute(k: &GridCase, ctx: &mut Ctx) -> Verdict {
         let lay = layout(k.cols as usize, k.rows as usize, &k.recv);
@@ -1007,7 +1007,7 @@ impl Prop for C14 {
         matches!(k.op, GOp::CopyFromSlice { .. } | GOp::CopyFromToodee { .. } | GOp::CopyWithin { .. }) && sanitize(k, 9, false)
     }
     fn random_cases(tier: Tier) -> u64 {
-        if tier == Tier::Quick { 40_000 } else { 1_500_000 }
+        if tier == Tier::Quick { 400_000 } else { 6_000_000 }
     }
     fn execute(k: &GridCase, ctx: &mut Ctx) -> Verdict {
         let lay = layout(k.cols as usize, k.rows as usize, &k.recv);
@@ -1113,7 +1113,7 @@ impl Prop for C15 {
         matches!(k.op, GOp::Translate(..) | GOp::FlipRows | GOp::FlipCols) && sanitize(k, 24, false)
     }
     fn random_cases(tier: Tier) -> u64 {
-        if tier == Tier::Quick { 30_000 } else { 1_000_000 }
+        if tier == Tier::Quick { 300_000 } else { 4_000_000 }
     }
     fn execute(k: &GridCase, ctx: &mut Ctx) -> Verdict {
         let lay = layout(k.cols as usize, k.rows as usize, &k.recv);
@@ -1281,7 +1281,7 @@ impl Prop for C16 {
         sanitize(k, 80, false)
     }
     fn random_cases(tier: Tier) -> u64 {
-        if tier == Tier::Quick { 30_000 } else { 800_000 }
+        if tier == Tier::Quick { 300_000 } else { 4_000_000 }
     }
     fn execute(k: &GridCase, ctx: &mut Ctx) -> Verdict {
         sort_execute(k, ctx)
@@ -1317,7 +1317,7 @@ impl Prop for C17 {
         sanitize(k, 80, false)
     }
     fn random_cases(tier: Tier) -> u64 {
-        if tier == Tier::Quick { 30_000 } else { 800_000 }
+        if tier == Tier::Quick { 300_000 } else { 4_000_000 }
     }
     fn execute(k: &GridCase, ctx: &mut Ctx) -> Verdict {
         sort_execute(k, ctx)
@@ -1421,7 +1421,7 @@ impl Prop for C04 {
         sanitize(k, 10, true)
     }
     fn random_cases(tier: Tier) -> u64 {
-        if tier == Tier::Quick { 60_000 } else { 2_000_000 }
+        if tier == Tier::Quick { 600_000 } else { 8_000_000 }
     }
     fn execute(k: &GridCase, ctx: &mut Ctx) -> Verdict {
         let lay = layout(k.cols as usize, k.rows as usize, &k.recv);
